@@ -27,7 +27,7 @@ ASSUMPTIONS = ["bare-name octave follows the documented rule (octave of the top 
                "(their correctness is C06/C08's subject); the voicing is checked with own pitch arithmetic"]
 
 NAMES = ["C", "D", "E", "F", "G", "A", "B", "C#", "Db", "D#", "Eb", "F#", "Gb", "G#", "Ab", "A#", "Bb", "B#", "Cb", "E#", "Fb"]
-OCTS = [3, 4, 5]
+OCTS = [0, 3, 4, 5]
 
 
 class Model(object):
@@ -124,7 +124,7 @@ def _invariants(ctx, nc, model, where):
     if exp:
         fewer = NoteContainer(["%s-%d" % (n, o) for (n, o) in exp[1:]])
         ctx.check((nc == fewer) is False and (nc != fewer) is True, "equality/one-removed", where)
-        spare = [x for x in ("C-0", "D-0", "E-0") if T.pitch(x[0], 0) not in model.d][0]
+        spare = ["%s-%d" % (nm, o) for o in (9, 10, 11) for nm in "CDEFGAB" if T.pitch(nm, o) not in model.d][0]
         other = NoteContainer(["%s-%d" % (n, o) for (n, o) in exp[:-1]] + [spare])
         ctx.check((nc == other) is False, "equality/one-changed", where)
     # consonance: true exactly when every pair (lower, higher) satisfies the pairwise predicate
@@ -223,6 +223,16 @@ def check_history(ctx, ops):
                 model.d = {p: v for p, v in model.d.items() if v[0] != i[1]}
             else:
                 model.d.pop(T.pitch(i[1], i[2]), None)
+            added, removed = [], True
+        elif kind == "rm_own":  # the container's own note list (or the list an earlier call returned) as the removal list
+            own = nc.notes if op[1] == 0 else ctx.ok("add_notes", nc.add_notes, [])
+            if failed(own):
+                break
+            if op[1] == 2:
+                ctx.ok("minus", nc.__sub__, own)
+            else:
+                ctx.ok("remove_notes", nc.remove_notes, own)
+            model.d = {}
             added, removed = [], True
         elif kind == "dedupe":
             ctx.ok("remove_duplicate_notes", nc.remove_duplicate_notes)
@@ -333,6 +343,8 @@ ALPHABET = [
     ["minus_list", [["bare", "G"], ["obj", "B", 4]]],
     ["dedupe"],
 ]
+ALPHABET0 = [["add", ["pair", "C", 0]], ["add", ["obj", "E", 0]], ["add", ["str", "C", 4]], ["add", ["bare", "C"]], ["rm_name_oct", "C", 0],
+             ["rm_name_oct", "E", 0], ["rm_name", "E"], ["rm_own", 0], ["rm_note", "C", 0]]
 
 
 def sub_exhaustive(ctx, shard, n):
@@ -342,6 +354,11 @@ def sub_exhaustive(ctx, shard, n):
         ctx.exhaustive("NoteContainer histories over a 12-operation alphabet", "depth <= %d" % depth,
                        sum(12 ** d for d in range(1, depth + 1)))
     ctx.enumerate("history", check_history, itertools.islice(seqs, shard, None, n), size_key=len)
+    # a second small alphabet around octave 0 (where 'no octave given' and 'octave 0' must not be confused)
+    seqs0 = (list(s) for d in range(1, 5) for s in itertools.product(ALPHABET0, repeat=d))
+    if shard == 0:
+        ctx.exhaustive("NoteContainer histories over a 9-operation alphabet around octave 0", "depth <= 4", sum(9 ** d for d in range(1, 5)))
+    ctx.enumerate("history", check_history, itertools.islice(seqs0, shard, None, n), size_key=len)
 
 
 def _item_st(allow_bare=True, allow_lists=True):
@@ -375,6 +392,7 @@ def _ops_st():
         st.tuples(st.just("minus_list"), rm_items).map(list),
         st.tuples(st.just("minus"), st.one_of(st.tuples(st.just("bare"), n), st.tuples(st.just("obj"), n, o)).map(list)).map(list),
         st.just(["dedupe"]), st.just(["sort"]), st.just(["empty"]),
+        st.tuples(st.just("rm_own"), st.integers(0, 2)).map(list),
     )
 
 
